@@ -69,6 +69,15 @@ func getDistillationFunc(dm *model.DecisionMaker) *utils.LinearFunctionParameter
 	} else {
 		parameters := utils.LinearFunctionParameters{}
 		utils.DecodeToStruct(params, &parameters)
+		validateDistillationFunc(&parameters)
 		return &parameters
+	}
+}
+
+// the cut level is lowered by the function's value at each step: a value below zero for some
+// credibility in [0, 1] raises it instead and the distillation never ends
+func validateDistillationFunc(f *utils.LinearFunctionParameters) {
+	if f.B < 0 || f.A+f.B < 0 {
+		panic(fmt.Errorf("distillation function %v must not be negative for credibility in range [0, 1]", f))
 	}
 }
